@@ -78,7 +78,17 @@ def copies_are_deep(ctx, rule, with_mk_copy=True):
                f'{ci.name}.get_actual_value maps stored values to something else ({bad[:2]}): mk_copy, which asks it what to '
                f'copy, no longer deep-copies such values and the copy shares them with the original', fi=fi)
     ctx.floor(rule, n, 1, 'get_actual_value implementations')
-    for q, ci in (repo.classes.items() if with_mk_copy else ()):
+    for q, ci in sorted(repo.classes.items()):
+        if not q.startswith(XS + '.'):
+            continue
+        for name, fi in ci.methods.items():
+            memo = [unparse(d) for d in fi.node.decorator_list if 'cache' in unparse(d)]
+            if memo:
+                ctx.ob(rule, f'{ci.name}.{name} is memoised', False,
+                       f'{ci.name}.{name} is decorated with {memo[0]}: the (mutable) value it computed for one instance / document '
+                       f'is handed to every later one with the same input - instances share it, and a change made through one '
+                       f'of them is what the next parse returns', fi=fi)
+    for q, ci in repo.classes.items():
         if any(b in repo.mro(q) for b in DATA_BASES):
             for m in ('__deepcopy__', '__copy__'):
                 if m in ci.methods:
@@ -277,6 +287,25 @@ def entity_getters_hand_out_copies(ctx, rule):
                    f'{ci.name}.{name} stores {stores or memo} on the getter: a later call is answered with the entity object an '
                    f'earlier caller already holds (and may have changed) instead of a fresh copy of the MDIB content', fi=fi)
     ctx.floor(rule, m, 5, 'methods of the entity getters')
+    # the copies are made while the MDIB is locked: _mk_entity reads a descriptor and its state(s) - a commit between the
+    # two (or in the middle of the deep copy of the live state list) yields an entity that never existed
+    k = 0
+    for q, ci in sorted(repo.classes.items()):
+        if EG not in repo.mro(q):
+            continue
+        for name, fi in sorted(ci.methods.items()):
+            if name == '_mk_entity':
+                continue
+            gq = cfg_of(fi)
+            for nn, c in gq.nodes_calling('_mk_entity'):
+                k += 1
+                locked = bool(gq.held_withs(nn, 'mdib_lock'))
+                ctx.ob(rule, f'{ci.name}.{name}: _mk_entity under mdib_lock', locked,
+                       f'{ci.name}.{name} builds its entities while it holds mdib_lock' if locked else
+                       f'{ci.name}.{name} calls _mk_entity outside `with self._mdib.mdib_lock`: a commit that lands while the copies '
+                       f'are made gives an entity with the descriptor of one MDIB version and states of another (two associated '
+                       f'location states in one copy)', fi=fi, node=c)
+    ctx.floor(rule, k, 3, '_mk_entity calls in the entity getters')
 
 
 def written_entities_are_copied(ctx, rule):
@@ -518,3 +547,174 @@ def no_mutation_while_iterating(ctx, rule, module_prefixes, floor=3):
                        f'iterate over a snapshot', fi=fi, node=lp)
     ctx.ob(rule, 'no container is changed while it is iterated', True, f'{n} loops that run directly over a list / dict checked')
     ctx.floor(rule, n, floor, 'loops over containers')
+
+
+def readers_catch_only_absence(ctx, rule):
+    """A reader of the XML structure (get_py_value_from_node) treats exactly one thing as "no value": the element is absent
+    (ElementNotFoundError). A handler that also swallows ValueError / TypeError / Exception turns a lexical form outside the
+    schema type into None - the value silently disappears instead of being rejected."""
+    repo = ctx.repo
+    n = 0
+    for q, ci in sorted(repo.classes.items()):
+        if not q.startswith(XS + '.'):
+            continue
+        fi = ci.methods.get('get_py_value_from_node')
+        if fi is None:
+            continue
+        for h in [x for x in walk_no_nested(fi.node) if isinstance(x, ast.ExceptHandler)]:
+            n += 1
+            types = [unparse(t) for t in (h.type.elts if isinstance(h.type, ast.Tuple) else [h.type])] if h.type is not None else ['<bare>']
+            wide = [t for t in types if t.split('.')[-1] != 'ElementNotFoundError']
+            reraises = any(isinstance(x, ast.Raise) for b in h.body for x in ast.walk(b))
+            ctx.ob(rule, f'{ci.name}: reader handler {types}', not wide or reraises,
+                   f'{ci.name}.get_py_value_from_node treats only an absent element as "no value"' if not wide or reraises else
+                   f'{ci.name}.get_py_value_from_node also swallows {wide}: a value whose lexical form is outside the schema type '
+                   f'(month 13, a malformed number) is read as None / the default and is dropped when the object is written again '
+                   f'instead of being rejected', fi=fi, node=h)
+    ctx.floor(rule, n, 8, 'exception handlers in readers')
+
+
+def table_object_sets_are_private(ctx, rule, module_prefixes=('sdc11073',)):
+    """`table.objects` hands out the set the multi-key table itself works on. Outside multikey.py nothing adds to or removes
+    from it (directly, through an alias, or with an augmented assignment): the indices know nothing about such a change and keep
+    answering with objects that a scan no longer finds (or the other way round)."""
+    from engine.util import local_assignments
+    repo = ctx.repo
+    n = 0
+    for q, fi in sorted(repo.funcs.items()):
+        if not fi.module.name.startswith(tuple(module_prefixes)) or fi.module.name == 'sdc11073.multikey':
+            continue
+        la = local_assignments(fi.node)
+        alias = {k for k, vs in la.items() if any(isinstance(v, ast.Attribute) and v.attr in ('objects', '_objects') for v in vs)}
+
+        def is_objects(e):
+            return (isinstance(e, ast.Attribute) and e.attr in ('objects', '_objects') and unparse(e.value) != 'self') or \
+                (isinstance(e, ast.Name) and e.id in alias)
+        bad = []
+        for x in walk_no_nested(fi.node):
+            if isinstance(x, ast.Call) and isinstance(x.func, ast.Attribute) and x.func.attr in _MUTATORS | {'difference_update',
+                    'intersection_update', 'symmetric_difference_update'} and is_objects(x.func.value):
+                bad.append(unparse(x)[:60])
+            if isinstance(x, ast.AugAssign) and is_objects(x.target):
+                bad.append(unparse(x)[:60])
+            if isinstance(x, ast.Delete) and any(isinstance(t, ast.Subscript) and is_objects(t.value) for t in x.targets):
+                bad.append(unparse(x)[:60])
+        uses = [x for x in walk_no_nested(fi.node) if isinstance(x, ast.Attribute) and x.attr == 'objects']
+        n += bool(uses)
+        if bad:
+            ctx.ob(rule, f'{fi.name}: object set of a table changed from outside', False,
+                   f'{fi.cls.name + "." if fi.cls else ""}{fi.name} changes the object set of a multi-key table directly ({bad[:2]}): '
+                   f'the indices are not told - lookups by key keep returning objects that are no longer in the table', fi=fi)
+    ctx.ob(rule, 'table object sets are changed only by the table', True, f'{n} functions read `.objects` and none changes it')
+    ctx.floor(rule, n, 3, 'functions that read the object set of a table')
+
+
+def qnames_resolved_in_their_own_scope(ctx, rule):
+    """A QName in attribute / element content (xsi:type, a QName-valued element) is resolved with the namespace declarations in
+    scope AT THAT ELEMENT: text_to_qname(<text from n>, <n>.nsmap). The map of a parent lacks (or binds differently) prefixes that
+    the element declares itself - a schema-valid document would be unreadable or read as another type."""
+    from engine.util import local_assignments
+    repo = ctx.repo
+    n = 0
+    for q, fi in sorted(repo.funcs.items()):
+        if not q.startswith(XS + '.'):
+            continue
+        calls = [c for c in calls_in(fi.node, 'text_to_qname') if len(c.args) >= 2]
+        if not calls:
+            continue
+        la = local_assignments(fi.node)
+        # loop / comprehension variables: bound to their iterables
+        for x in ast.walk(fi.node):
+            if isinstance(x, (ast.For, ast.comprehension)) and isinstance(x.target, ast.Name):
+                la.setdefault(x.target.id, []).append(x.iter)
+
+        def roots(e, depth=4, seen=None):
+            seen = seen if seen is not None else set()
+            out = set()
+            for nm in [y for y in ast.walk(e) if isinstance(y, ast.Name)]:
+                if nm.id in la and depth > 0 and nm.id not in seen:
+                    seen.add(nm.id)
+                    for v in la[nm.id]:
+                        out |= roots(v, depth - 1, seen)
+                else:
+                    out.add(nm.id)
+            return out
+        for c in calls:
+            n += 1
+            text_roots, map_roots = roots(c.args[0]), roots(c.args[1])
+            params = {a.arg for a in fi.node.args.args}
+            ok = bool(map_roots & text_roots - {'self'}) or not (map_roots & params)
+            # the map is taken from the node the text comes from (they share a root other than self)
+            txt_nodes = {nm.id for nm in ast.walk(c.args[0]) if isinstance(nm, ast.Name)}
+            direct = unparse(c.args[1])
+            if isinstance(c.args[1], ast.Attribute) and c.args[1].attr == 'nsmap':
+                base = unparse(c.args[1].value)
+                ok = base in {unparse(y) for v in [c.args[0], *[w for t in txt_nodes for w in la.get(t, [])]]
+                              for y in ast.walk(v) if isinstance(y, (ast.Name, ast.Attribute))}
+            elif isinstance(c.args[1], ast.Name):
+                vals = la.get(c.args[1].id, [])
+                bases = {unparse(v.value) for v in vals if isinstance(v, ast.Attribute) and v.attr == 'nsmap'}
+                used = {unparse(y) for v in [c.args[0], *[w for t in txt_nodes for w in la.get(t, [])]]
+                        for y in ast.walk(v) if isinstance(y, (ast.Name, ast.Attribute))}
+                ok = bool(bases) and bases <= used
+            ctx.ob(rule, f'{fi.cls.name if fi.cls else ""}.{fi.name}: text_to_qname(.., {direct})', ok,
+                   f'{fi.name}: the QName text and the namespace map come from the same element' if ok else
+                   f'{fi.cls.name if fi.cls else ""}.{fi.name}: text_to_qname({unparse(c.args[0])}, {direct}) resolves the prefix with '
+                   f'the namespace map of another element than the one the text was read from: a prefix declared on the element '
+                   f'itself (legal XML) is unknown or bound differently there', fi=fi, node=c)
+    ctx.floor(rule, n, 3, 'QName resolutions in readers')
+
+
+def skip_lists_are_kept(ctx, rule):
+    """update_from_other_container(other, skipped_properties): what the caller excluded from the update stays excluded - an
+    override may add to the list, it never replaces it (the SetContextState handler protects the binding / unbinding versions
+    and times it has just set with that list)."""
+    repo = ctx.repo
+    n = 0
+    for q, fi in sorted(repo.funcs.items()):
+        if fi.name != 'update_from_other_container' or not q.startswith('sdc11073.mdib.'):
+            continue
+        pn = 'skipped_properties'
+        if pn not in [a.arg for a in fi.node.args.args]:
+            continue
+        n += 1
+        g = cfg_of(fi)
+        bad = []
+        for nn in g.real_nodes():
+            if nn.kind == 'stmt' and isinstance(nn.stmt, ast.Assign) and any(isinstance(t, ast.Name) and t.id == pn for t in nn.stmt.targets):
+                keeps = any(isinstance(x, ast.Name) and x.id == pn for x in ast.walk(nn.stmt.value))
+                only_none = any(p is True and t == f'{pn} is None' for t, p in g.facts_at(nn).both())
+                if not keeps and not only_none:
+                    bad.append(unparse(nn.stmt)[:60])
+        fwd = [c for c in calls_in(fi.node) if call_name(c) in ('update_from_other_container', '_update_from_other')]
+        passes = all(any(isinstance(x, ast.Name) and x.id == pn for a in [*c.args, *[k.value for k in c.keywords]] for x in ast.walk(a))
+                     for c in fwd)
+        ctx.ob(rule, f'{fi.cls.name}.update_from_other_container keeps the skip list', not bad and passes,
+               f'{fi.cls.name}.update_from_other_container hands the skip list of its caller on' if not bad and passes else
+               f'{fi.cls.name}.update_from_other_container replaces / drops the skip list of its caller ({bad or "not passed on"}): '
+               f'members the caller protected (BindingMdibVersion, UnbindingMdibVersion, the times) are overwritten by the values '
+               f'of the proposal - usually None', fi=fi)
+    ctx.floor(rule, n, 2, 'update_from_other_container implementations')
+
+
+def string_readers_return_the_text(ctx, rule):
+    """The readers of string-valued element lists return the element text as it is: the items (handle references, text
+    references) are xsd:string values in which white space counts - a reader that strips them or drops blank ones turns a
+    request for the handle ' ' into a request with an empty list (= everything)."""
+    repo = ctx.repo
+    n = 0
+    for name in ('SubElementTextListProperty', 'SubElementStringListProperty', 'SubElementHandleRefListProperty'):
+        ci = repo.classes.get(f'{XS}.{name}')
+        fi = ci.methods.get('get_py_value_from_node') if ci is not None else None
+        if fi is None:
+            continue
+        n += 1
+        edits = [unparse(c)[:50] for c in calls_in(fi.node) if call_name(c) in ('strip', 'lstrip', 'rstrip', 'lower', 'upper', 'replace',
+                                                                                'split', 'casefold', 'filter')]
+        filters = [unparse(g_)[:50] for x in ast.walk(fi.node) if isinstance(x, (ast.ListComp, ast.GeneratorExp))
+                   for g_ in x.generators if g_.ifs]
+        ctx.ob(rule, f'{name} returns the element texts unchanged', not edits and not filters,
+               f'{name}.get_py_value_from_node returns the text of every element as it is' if not edits and not filters else
+               f'{name}.get_py_value_from_node edits / filters the element texts ({(edits + filters)[:2]}): a handle with surrounding '
+               f'white space selects another object, a blank one disappears and an empty list selects everything', fi=fi)
+    ctx.floor(rule, n, 1, 'readers of string lists in element content')
